@@ -572,7 +572,11 @@ func (r *runner) distSig(c *tcase, what string) vh.M {
 	if len(c.Faults) > 0 {
 		ft, mode = c.Faults[0].F, "fault"
 	}
-	return vh.M{"engine": "serial", "mode": mode, "kind": "dist", "format": "config", "family": cfgName(c.Obj.Cfg),
+	family := cfgName(c.Obj.Cfg)
+	if mode == "fault" && c.Obj.Cfg != nil && c.Obj.Cfg.F["Name"] != nil {
+		family = c.Obj.Cfg.F["Name"].S // damaged documents: the outer family identifies the reader
+	}
+	return vh.M{"engine": "serial", "mode": mode, "kind": "dist", "format": "config", "family": family,
 		"fault": ft, "what": what}
 }
 
